@@ -101,7 +101,7 @@ What was added for the ones not caught (or caught without an input) at first:
 
 ### 13.8 What remains open
 
-* C01: the text → token half of the layout independence is not a theorem; the `{a}` shorthand of
+* C01: the text → token half of the layout independence is not a theorem; the `{{a}}` shorthand of
   object literals is outside the round trip.
 * C08: fuel adequacy of the parser model (the lexer's is proved).
 * C03: the passes of a loop as a computed function (now: relational).
